@@ -109,6 +109,10 @@ type Scanner struct {
 	allowAnnotation bool
 
 	hasTrailingCharacters bool
+
+	// slashPending is true after the first `/` of an annotation until its second
+	// character (`/` or `*`) has been read.
+	slashPending bool
 }
 
 type context struct {
@@ -232,6 +236,13 @@ func (s *Scanner) Next() (lexeme.LexEvent, bool) {
 		if len(s.finds) != 0 {
 			return s.processingFoundLexeme(s.shiftFound()), true
 		}
+	}
+
+	if s.slashPending {
+		// The text ends right after the first `/` of an annotation.
+		err := kit.NewJSchemaError(s.file, errs.ErrUnexpectedEOF.F())
+		err.SetIndex(s.dataSize - 1)
+		panic(err)
 	}
 
 	if s.stack.Len() != 0 {
